@@ -415,9 +415,20 @@ static int us_free(ABT_sched sched)
     free(d);
     return ABT_SUCCESS;
 }
+/* optional callback: which pool receives a unit migrated to this scheduler.  It names the first
+ * pool, which is also what the runtime picks without the callback, so that workloads need not
+ * know whether a scheduler has one. */
+static long us_migr_pool_calls;
+static ABT_pool us_get_migr_pool(ABT_sched sched)
+{
+    ABT_pool p = ABT_POOL_NULL;
+    ABT_OK(ABT_sched_get_pools(sched, 1, 0, &p));
+    us_migr_pool_calls++;
+    return p;
+}
 ABT_sched wl_make_user_sched(int n, ABT_pool *pools)
 {
-    ABT_sched_def def = { .type = ABT_SCHED_TYPE_ULT, .init = us_init, .run = us_run, .free = us_free, .get_migr_pool = NULL };
+    ABT_sched_def def = { .type = ABT_SCHED_TYPE_ULT, .init = us_init, .run = us_run, .free = us_free, .get_migr_pool = plan_bool() ? us_get_migr_pool : NULL };
     ABT_sched_config cfg;
     ABT_sched sched;
     static const int freqs[] = { 1, 2, 5, 16 };
@@ -445,6 +456,7 @@ void wl_rt_start(wl_rt *rt, int flags)
     nupq = 0;
     up_creates = up_frees = 0;
     us_units_run = 0;
+    us_migr_pool_calls = 0;
     wl_env_swarm();
     ABT_OK(ABT_init(0, NULL));
     int maxes = sim_limit("es", 4);
@@ -534,6 +546,8 @@ void wl_rt_stop(wl_rt *rt)
         sim_count("rt.user_pool_units", (uint64_t)up_creates);
     if (us_units_run)
         sim_count("rt.user_sched_units_run", (uint64_t)us_units_run);
+    if (us_migr_pool_calls)
+        sim_count("rt.user_sched_get_migr_pool_calls", (uint64_t)us_migr_pool_calls);
 }
 
 ABT_pool wl_any_pool(wl_rt *rt)
